@@ -13,6 +13,19 @@ open('known_findings.jsonl','w').write('\n'.join(lines)+'\n')
 PY
   git add known_findings.jsonl
 fi
+# corpus files are append-only too: keep both sides, drop the markers and repeated lines
+for f in $(git status --short | grep '^UU\|^AA' | awk '{print $2}' | grep '^corpus/'); do
+  python3 - "$f" <<'PY'
+import sys
+lines=[];seen=set()
+for l in open(sys.argv[1]).read().splitlines():
+    if l.startswith('<<<<<<<') or l.startswith('=======') or l.startswith('>>>>>>>'): continue
+    if l.strip() and l in seen: continue
+    seen.add(l); lines.append(l)
+open(sys.argv[1],'w').write('\n'.join(lines)+'\n')
+PY
+  git add "$f"
+done
 # generated files: take the branch's version (they are rewritten by the next run anyway)
 for f in $(git status --short | grep '^UU\|^AA\|^DU\|^UD' | awk '{print $2}' | grep '^evidence/\|^lean/RsslVerif/Gen/\|^MANIFEST.json'); do
   git checkout --theirs "$f" 2>/dev/null && git add "$f" || git rm -q --cached "$f" 2>/dev/null || true
